@@ -60,6 +60,193 @@ pub fn run(suite: &str, a: &[&str]) -> Option<String> {
                 m, same(smap(&x.native_map)), same(ps), same(smap(&x.pixels_map))
             )
         }
+        _ => return search(suite, a),
+    })
+}
+
+type Map = BTreeMap<(i32, i32), u32>;
+
+fn first_diff(a: &Map, b: &Map) -> String {
+    for (k, v) in a {
+        if b.get(k) != Some(v) {
+            return format!("({},{}) expected {} got {:?}", k.1, k.0, v, b.get(k));
+        }
+    }
+    for (k, v) in b {
+        if !a.contains_key(k) {
+            return format!("({},{}) unexpected {}", k.1, k.0, v);
+        }
+    }
+    "none".into()
+}
+
+fn big() -> Rectangle {
+    Rectangle::new(Point::new(-3000, -3000), Size::new(6000, 6000))
+}
+
+/// the pixel map the property C06 demands, from the public fill_area()/stroke_area()/contains()
+fn expected_map(s: &Styled<RoundedRectangle, PrimitiveStyle<Gray8>>, margin: i32) -> Map {
+    let (fa, sa) = (s.fill_area(), s.stroke_area());
+    let st = s.style;
+    let mut m = Map::new();
+    let win = s.primitive.rectangle.envelope(&sa.rectangle).envelope(&fa.rectangle);
+    let (x0, y0) = (win.top_left.x - margin, win.top_left.y - margin);
+    let (x1, y1) = (win.top_left.x + win.size.width as i32 + margin, win.top_left.y + win.size.height as i32 + margin);
+    for y in y0..y1 {
+        for x in x0..x1 {
+            let p = Point::new(x, y);
+            if fa.contains(p) {
+                if let Some(c) = st.fill_color {
+                    m.insert((y, x), c.tag());
+                }
+            } else if sa.contains(p) && st.stroke_width > 0 {
+                if let Some(c) = st.stroke_color {
+                    m.insert((y, x), c.tag());
+                }
+            }
+        }
+    }
+    m
+}
+
+pub fn search(suite: &str, a: &[&str]) -> Option<String> {
+    Some(match suite {
+        // C06: draw() (both targets) and pixels() paint fill colour exactly on fill_area(), stroke colour exactly on
+        // stroke_area() \ fill_area() (width > 0), nothing else; geometry of the two areas
+        "p_rr_styled" => {
+            let r = rr(a);
+            let st = style(&a[12..16]);
+            let s = r.into_styled(st);
+            let want = expected_map(&s, 3);
+            let x = render(&s, big());
+            if x.iter_map != want {
+                return Some(format!("FAIL draw() (draw_iter-only target) differs from fill_area/stroke_area: {} ({} vs {} px)", first_diff(&want, &x.iter_map), want.len(), x.iter_map.len()));
+            }
+            if x.native_map != want {
+                return Some(format!("FAIL draw() (native target) differs from fill_area/stroke_area: {}", first_diff(&want, &x.native_map)));
+            }
+            if x.pixels_map != want {
+                return Some(format!("FAIL pixels() differs from fill_area/stroke_area: {}", first_diff(&want, &x.pixels_map)));
+            }
+            // geometry: stroke area = box grown by the outside part, fill area = box shrunk by the inside part
+            let w = st.stroke_width;
+            let (ins, out) = match st.stroke_alignment {
+                StrokeAlignment::Inside => (w, 0),
+                StrokeAlignment::Center => ((w + 1) / 2, w / 2),
+                StrokeAlignment::Outside => (0, w),
+            };
+            let (sa, fa) = (s.stroke_area(), s.fill_area());
+            let Rectangle { top_left: t, size: z } = r.rectangle;
+            if z.width > 0 && z.height > 0 {
+                let want_sa = Rectangle::new(t - Point::new(out as i32, out as i32), z + Size::new(2 * out, 2 * out));
+                if sa.rectangle != want_sa {
+                    return Some(format!("FAIL stroke area box {:?} != {:?}", sa.rectangle, want_sa));
+                }
+                if z.width > 2 * ins && z.height > 2 * ins {
+                    let want_fa = Rectangle::new(t + Point::new(ins as i32, ins as i32), z - Size::new(2 * ins, 2 * ins));
+                    if fa.rectangle != want_fa {
+                        return Some(format!("FAIL fill area box {:?} != {:?}", fa.rectangle, want_fa));
+                    }
+                } else if !fa.rectangle.is_zero_sized() {
+                    return Some(format!("FAIL fill area box {:?} should be empty", fa.rectangle));
+                }
+            }
+            // an inside stroke never paints outside the shape, an outside stroke never inside it
+            for ((y, x_), c) in x.native_map.iter() {
+                let p = Point::new(*x_, *y);
+                if st.stroke_alignment == StrokeAlignment::Inside && !r.contains(p) {
+                    return Some(format!("FAIL inside stroke painted {:?} outside the shape", p));
+                }
+                if st.stroke_alignment == StrokeAlignment::Outside && st.stroke_color.map(|k| k.tag()) == Some(*c)
+                    && st.fill_color.map(|k| k.tag()) != Some(*c) && r.contains(p) {
+                    return Some(format!("FAIL outside stroke painted {:?} inside the shape", p));
+                }
+            }
+            format!("OK {}", want.len())
+        }
+        // C01(b): pixels() and draw() give the same image (on both kinds of target, clipped by the target box)
+        "p_rr_pixels_draw" => {
+            let r = rr(a);
+            let st = style(&a[12..16]);
+            let bb = rc(a[16], a[17], a[18], a[19]);
+            let s = r.into_styled(st);
+            let x = render(&s, bb);
+            if x.iter_map != x.native_map {
+                return Some(format!("FAIL draw() on draw_iter-only vs native target: {}", first_diff(&x.iter_map, &x.native_map)));
+            }
+            if x.pixels_map != x.iter_map {
+                return Some(format!("FAIL pixels() vs draw(): {} ({} vs {} px)", first_diff(&x.iter_map, &x.pixels_map), x.iter_map.len(), x.pixels_map.len()));
+            }
+            // pixels() yields every point at most once
+            let mut seen = std::collections::BTreeSet::new();
+            for (p, _) in &x.pixels {
+                if !seen.insert((p.y, p.x)) {
+                    return Some(format!("FAIL pixels() yields {:?} twice", p));
+                }
+            }
+            format!("OK {}", x.iter_map.len())
+        }
+        // C02: everything drawn lies in the styled bounding box; transparent styles draw nothing
+        "p_rr_bbox" => {
+            let r = rr(a);
+            let st = style(&a[12..16]);
+            let s = r.into_styled(st);
+            let x = render(&s, big());
+            let bb = s.bounding_box();
+            for m in [&x.iter_map, &x.native_map, &x.pixels_map] {
+                for ((y, x_), _) in m.iter() {
+                    if !bb.contains(Point::new(*x_, *y)) {
+                        return Some(format!("FAIL ({},{}) drawn outside the bounding box {:?}", x_, y, bb));
+                    }
+                }
+            }
+            if st.is_transparent() && !(x.iter_map.is_empty() && x.native_map.is_empty() && x.pixels.is_empty()) {
+                return Some("FAIL transparent style drew pixels".into());
+            }
+            format!("OK {}", x.iter_map.len())
+        }
+        // C07: contains / points / bounding boxes / draw / pixels commute with translation.  dx dy first
+        "p_rr_translate" => {
+            let d = pt(a[0], a[1]);
+            let a = &a[2..];
+            let r = rr(a);
+            let st = style(&a[12..16]);
+            let rt = r.translate(d);
+            let mut rm = r;
+            rm.translate_mut(d);
+            if rm != rt {
+                return Some("FAIL translate_mut != translate".into());
+            }
+            if rt.corners != r.corners || rt.rectangle.size != r.rectangle.size || rt.rectangle.top_left != r.rectangle.top_left + d {
+                return Some("FAIL translate changed more than the position".into());
+            }
+            if !r.points().map(|p| p + d).eq(rt.points()) {
+                return Some("FAIL points() of the translate != shifted points()".into());
+            }
+            let (x0, y0, x1, y1) = super::c05_rrect::window(&r.rectangle, 2);
+            for y in y0..y1 {
+                for x in x0..x1 {
+                    let p = Point::new(x, y);
+                    if r.contains(p) != rt.contains(p + d) {
+                        return Some(format!("FAIL contains({:?}) != translate.contains(p + d)", p));
+                    }
+                }
+            }
+            let (s, s2) = (r.into_styled(st), rt.into_styled(st));
+            let (b, b2) = (s.bounding_box(), s2.bounding_box());
+            if !b.is_zero_sized() && (b2.top_left != b.top_left + d || b2.size != b.size) {
+                return Some(format!("FAIL styled bounding box {:?} -> {:?}", b, b2));
+            }
+            let (m, m2) = (render(&s, big()), render(&s2, big()));
+            let sh = |m: &Map| -> Map { m.iter().map(|((y, x), c)| ((y + d.y, x + d.x), *c)).collect() };
+            if sh(&m.native_map) != m2.native_map || sh(&m.iter_map) != m2.iter_map {
+                return Some(format!("FAIL draw(translate) != shifted draw: {}", first_diff(&sh(&m.native_map), &m2.native_map)));
+            }
+            if !m.pixels.iter().map(|(p, c)| (*p + d, *c)).eq(m2.pixels.iter().copied()) {
+                return Some("FAIL pixels() of the translate != shifted pixels()".into());
+            }
+            format!("OK {}", m.native_map.len())
+        }
         _ => return None,
     })
 }
